@@ -222,6 +222,10 @@ theorem rotBc1_symm (bc da db : String) (hne : da ≠ db) : rotBc1 bc da db = ro
           · simp [e1, e2]
       have : (bc.toList.map (swapChar da db)) = (bc.toList.map (swapChar db da)) := List.map_congr_left (fun c _ => hsw c)
       simp only [h1, h2, this, beq_self_eq_true, Bool.and_true]
+      have hcomm : (!(bc == "neumann" || bc == "dirichlet" || bc == "") && da == da.toLower && db == db.toLower)
+          = (!(bc == "neumann" || bc == "dirichlet" || bc == "") && db == db.toLower && da == da.toLower) := by
+        rw [Bool.and_assoc, Bool.and_comm (da == da.toLower), ← Bool.and_assoc]
+      rw [hcomm]
     · simp [h1, h2]
   · simp [h1]
 
@@ -411,7 +415,7 @@ theorem turnWf_symm {f : Fld} {a b : Nat} (wf : MeshWf f) (ha : a < f.mesh.ndim)
   have hne := dims_ne_of_ne f wf.dims a b ha hb hab
   refine ⟨?_, by rw [← rotBc1_symm _ _ _ hne]; exact tw.bc_lower, by rw [← rotBc1_symm _ _ _ hne]; exact tw.bc_ok⟩
   rcases tw.turns with ⟨s1, s2, w1, w2⟩ | hp
-  · exact Or.inl ⟨s2, s1, w1, w2⟩
+  · exact Or.inl ⟨s2, s1, w2, w1⟩
   · exact Or.inr hp.symm
 
 /-- where `np.rot90(·, k)` in the plane `(a, b)` takes the entry at `i` from -/
